@@ -114,6 +114,39 @@ def _literal_variants(doc, limit=5):
     return out[:limit]
 
 
+def _list_pairs(doc, limit=6):
+    """pairs of documents that differ only in the ORDER or the MULTIPLICITY of the members of one
+    list-valued keyword (composition members, tuple items, type lists): (tag, doc_a, doc_b)"""
+    out = []
+    if not isinstance(doc, dict):
+        return out
+    places = [((), doc)]
+    for k, v in doc.items():
+        if isinstance(v, dict) and k in ("items", "contains", "additionalProperties", "not"):
+            places.append(((k,), v))
+        if isinstance(v, dict) and k == "properties":
+            places += [((k, n), s2) for n, s2 in v.items() if isinstance(s2, dict)]
+
+    def put(path, k, nv):
+        d = copy.deepcopy(doc)
+        t = d
+        for p_ in path:
+            t = t[p_]
+        t[k] = nv
+        return d
+
+    for path, sub in places:
+        for k in ("anyOf", "oneOf", "allOf", "items", "type"):
+            v = sub.get(k)
+            if not isinstance(v, list) or len(v) < 2 or v[0] == v[-1]:
+                continue
+            where = ".".join(map(str, path + (k,)))
+            out.append((f"permuted:{where}", doc, put(path, k, v[::-1])))
+            if k != "type":     # the metaschema wants type lists unique
+                out.append((f"multiplicity:{where}", put(path, k, [v[0]] + v), put(path, k, v + [v[-1]])))
+    return out[:limit]
+
+
 def _json_or_none(el):
     from statham.serializers import serialize_json
     try:
@@ -154,6 +187,23 @@ def replay_c17(state):
             pair["ka"] = kinds_a
             pair["kb"] = [drive.call(elb, v)[0] for v in pyvals]
             pair["ja"], pair["jb"] = ja, _json_or_none(elb)
+        obs["pairs"].append(pair)
+    for tag, da, db in _list_pairs(sj):
+        (ka_, ela), (kb, elb) = (drive.parse_labelled(da) if da is not sj else (kind, el)), drive.parse_labelled(db)
+        if ka_ != "ok" or kb != "ok":
+            continue
+        try:
+            eqab, eqba = bool(ela == elb), bool(elb == ela)
+        except Exception as exc:  # noqa
+            obs["pairs"].append(dict(tag=tag, doc_b=db, err=repr(exc)[:120]))
+            continue
+        pair = dict(tag=tag, doc_b=db, eqab=eqab, eqba=eqba)
+        if da is not sj:
+            pair["doc_a"] = da
+        if eqab or eqba:
+            pair["ka"] = [drive.call(ela, v)[0] for v in pyvals]
+            pair["kb"] = [drive.call(elb, v)[0] for v in pyvals]
+            pair["ja"], pair["jb"] = _json_or_none(ela), _json_or_none(elb)
         obs["pairs"].append(pair)
     return obs
 
@@ -214,6 +264,19 @@ def replay_c18(state):
             obs["reprs"].append(dict(how="dsl-shared", **_repr_obs(shared, _namespace(
                 [c for c in drive.walk_elements(shared) if isinstance(c, ObjectMeta)]))))
         except ValueError:
+            pass
+    # one property object declared twice under different names (its JSON name stays the first)
+    props0 = getattr(el, "properties", None)
+    if isinstance(props0, dict) and props0:
+        from statham.schema.elements import Element as _E
+        name0, p0 = next(iter(props0.items()))
+        try:
+            shared_p = Property(p0.element, required=p0.required)
+            first = _E(properties={name0: shared_p})
+            second = _E(properties={name0 + "_again": shared_p}, minProperties=1)
+            for how, x in (("rebound-property-first-owner", first), ("rebound-property-second-owner", second)):
+                obs["reprs"].append(dict(how=how, **_repr_obs(x, ns)))
+        except Exception as exc:  # noqa: reserved names etc.
             pass
     # unbound property wrappers
     props = getattr(el, "properties", None)
@@ -731,7 +794,7 @@ def run(pid, tier, replay_file=None):
                     pr = ob["pairs"][idx]
                     cause = pr["tag"].split(":")[0]
                     rep.violation(("C17", clause, cause),
-                                  f"{clause}: {sjson(st)} vs {json.dumps(pr['doc_b'])[:200]} ({pr['tag']}); a==b {pr['eqab']}, b==a {pr['eqba']}",
+                                  f"{clause}: {json.dumps(pr['doc_a'])[:200] if 'doc_a' in pr else sjson(st)} vs {json.dumps(pr['doc_b'])[:200]} ({pr['tag']}); a==b {pr['eqab']}, b==a {pr['eqba']}",
                                   dict(state=st, pair={k: v for k, v in pr.items() if k not in ('ja', 'jb')}))
             elif pid == "C18":
                 o = ob["reprs"][idx]
